@@ -14,7 +14,9 @@ from .. import tlc
 from ..common import Check, pmap
 
 CH = {'x': 'x', '5': '5', ';': ';', 'm': 'm', '[': '[', '{': '{', ':': ':', 'B': '\\', 'q': '"', 'W': '世', 'C': 'é', 'E': '\x1b',
-      's': ' ', 'R': '\r', 'L': '\n', 'F': '\x0c'}        # R, L, F: carriage return, line feed, form feed (no escape characters)
+      's': ' ', 'R': '\r', 'L': '\n', 'F': '\x0c', 'N': '\xa0', 'Z': '\u2003'}
+# R, L, F: carriage return, line feed, form feed (no escape characters); N, Z: no-break space, em space (category Zs: neither control
+# characters nor printable in the sense of str.isprintable(), so repr() writes them as escapes)
 SPECS = ['', '>8', '<8', '^8', '*^8', '3', '.0', '.2', '*>8.2', '0', '08']
 MODNAMES = {1: 'bold', 2: 'dim', 3: 'italic', 4: 'underline', 5: 'blink', 7: 'inverse', 8: 'hidden', 9: 'strikethrough'}
 
@@ -109,7 +111,8 @@ def run_points(case):
                         if a[k] != b[k]:
                             bad.append({'what': f'repr round trip: attribute {k}', 'point': pt, 'text': text, 'spec': spec,
                                         'expected': repr(a[k]), 'observed': repr(b[k]), 'repr': repr(s3)})
-                    clean = not any(ch in text for ch in '{}:\\"\'') and text.isprintable()
+                    import unicodedata
+                    clean = not any(ch in text for ch in '{}:\\"\'') and not any(unicodedata.category(ch) == 'Cc' for ch in text)
                     if clean and back.value != text:
                         bad.append({'what': 'repr round trip: text', 'point': pt, 'text': text, 'spec': spec, 'observed': back.value,
                                     'repr': repr(s3)})
@@ -194,7 +197,7 @@ def run(tier):
     d = tlc.scratch_dir('sgr')
     try:
         cfg = os.path.join(d, 'sgr.cfg')
-        alpha = '{"x", "5", ";", "m", "[", "{", ":", "B", "q", "W", "C", "R", "L", "F"}'
+        alpha = '{"x", "5", ";", "m", "[", "{", ":", "B", "q", "W", "C", "R", "L", "F", "N", "Z"}'
         open(cfg, 'w').write(f'CONSTANT TextAlphabet = {alpha}\nCONSTANT MaxLen = {1 if tier == "quick" else 2}\n'
                              'CONSTANT ModSets <- DefModSets\nCONSTANT Colors <- DefColors\nINIT Init\nNEXT Next\nINVARIANT StripLaw\n'
                              'INVARIANT LenLaw\nINVARIANT ParseLaw\nINVARIANT OffLaw\nCHECK_DEADLOCK FALSE\n')
